@@ -129,6 +129,7 @@ class Program:
             raise NotApplicable('empty tolerancing problem')
         self.excursion = False
         self.nominal = self.snapshot()
+        self.nominal_behaviour = self.behaviour()
         m = self.w.model
         # positions carry round-off of the edit history whenever a gap is
         # written relatively: thickness variables, thickness pickups, solves
@@ -201,7 +202,10 @@ class Program:
             return False
         kind = m.surfs[k]['kind']
         if t == 'radius':
-            return 1 <= k <= m.n - 2 and kind != 'plane'
+            # (a flatness tolerance - absolute radii on a plane - carries no
+            # nominal value)
+            return 1 <= k <= m.n - 2 and (
+                kind != 'plane' or (not comp and 'nominal' not in spec))
         if t in ('tilt', 'decenter'):
             return 1 <= k <= m.n - 2
         if t == 'conic':
@@ -222,7 +226,31 @@ class Program:
     def snapshot(self):
         with quiet(), warnings.catch_warnings():
             warnings.simplefilter('ignore')
-            return canon(self.lens.to_dict())
+            d = canon(self.lens.to_dict())
+        # one prescription, two representations: a standard surface of
+        # infinite radius and zero conic is a plane (a radius written to a
+        # plane and taken back leaves the former)
+        try:
+            for sd in d['surface_group']['surfaces']:
+                g = sd.get('geometry', {})
+                if g.get('type') == 'StandardGeometry' and \
+                        isinstance(g.get('radius'), float) and \
+                        math.isinf(g['radius']) and g.get('conic') == 0:
+                    sd['geometry'] = {'type': 'Plane', 'cs': g.get('cs'),
+                                      'radius': g['radius']}
+        except (KeyError, TypeError, AttributeError):
+            pass
+        return d
+
+    def behaviour(self):
+        """The operand values of the lens as it is now (None if they cannot
+        be evaluated)."""
+        try:
+            with quiet(), warnings.catch_warnings():
+                warnings.simplefilter('ignore')
+                return [float(v) for v in self.tol.evaluate()]
+        except Exception:    # noqa
+            return None
 
     def ztol(self):
         z = [abs(f(v)) for v in self.lens.surface_group.positions]
@@ -436,6 +464,22 @@ class Sim:
                             f'after {what} the lens differs from its nominal '
                             f'prescription: {where}')
         self.probe('restore_checked')
+        # ... and behaves as it did: with a bit-identical prescription an
+        # operand that was defined on the nominal lens must not have become
+        # undefined (or the reverse)
+        if P.nominal_behaviour is not None and \
+                same(got, P.nominal, rtol=0, atol=0)[0]:
+            now = P.behaviour()
+            self.stats['oracle_checks'] += 1
+            if now is None or any(math.isnan(a) != math.isnan(b)
+                                  for a, b in zip(now, P.nominal_behaviour)):
+                what = 'reset()' if op == 'reset' else f'{op}.run()'
+                raise Violation(
+                    'not-restored', f'C15/{op}/not-restored/behaviour',
+                    f'after {what} the prescription reads as the nominal '
+                    f'one but the operands evaluate to {now}, on the '
+                    f'nominal lens to {P.nominal_behaviour}')
+            self.probe('restored_behaviour_checked')
 
     def reference_row(self, values, trial_seed, comp_values=None):
         """Fresh nominal lens; recorded perturbation values applied through
@@ -743,6 +787,30 @@ def run_one(prop, run_seed, run_index, cfg):
                for q in perts):
             continue
         perts.append(p)
+    sc = ch.side('flat-radius-tolerance')
+    flats = [k_ for k_ in range(1, m.n - 1)
+             if m.is_plane(k_)
+             and not any(p_['dst'] == k_ for p_ in m.pickups)]
+    if flats and sc.chance(0.5):
+        # flatness tolerance: a radius perturbation on a plane surface (the
+        # nominal value is infinite, the samples are absolute radii); after
+        # the run the surface must be the plane it was
+        k_ = sc.pick(flats)
+        sgn = sc.pick([1, -1])
+        lo = sc.rounded(sc.uniform(150, 400), 3)
+        hi = sc.rounded(lo + sc.uniform(50, 600), 3)
+        sp = {'type': 'radius', 'k': k_}
+        if mode == 'sens' or sc.chance(0.4):
+            sp['sampler'] = {'kind': 'range', 'start': sgn * lo,
+                             'end': sgn * hi, 'steps': sc.pick([1, 2, 3])}
+        elif sc.chance(0.5):
+            sp['sampler'] = {'kind': 'scalar', 'value': sgn * lo}
+        else:
+            sp['sampler'] = {'kind': 'uniform', 'seed': _seed(sc),
+                             'low': min(sgn * lo, sgn * hi),
+                             'high': max(sgn * lo, sgn * hi)}
+        if not any(q['type'] == 'radius' and q['k'] == k_ for q in perts):
+            perts.append(sp)
     comps = []
     if ch.chance(0.45):
         for _ in range(ch.randint(1, 2)):
